@@ -157,6 +157,25 @@ theorem range_edit_eq_phi (r : TSRange) (e : TSInputEdit)
     by_cases h3 : r.start_byte ≥ e.old_end_byte <;> by_cases h4 : r.start_byte > e.start_byte <;>
     simp [h1, h2, h3, h4, hne, w1, w2, n1] <;> (try omega)
 
+/-- `range_edit_open_end`: a range whose end is open (`UINT32_MAX`, the default "to the end of the
+document" range of every tree parsed without explicit ranges) keeps its open end and end point under
+every edit, and its start moves like any other position. -/
+theorem range_edit_open_end (r : TSRange) (e : TSInputEdit)
+    (hopen : r.end_byte = 4294967295) (_hedit : e.start_byte ≤ e.old_end_byte)
+    (hoe : e.old_end_byte < 4294967296) (hno : e.new_end_byte + r.start_byte < 4294967296) :
+    (ts_range_edit r e).end_byte = 4294967295 ∧ (ts_range_edit r e).end_point = r.end_point ∧
+    (ts_range_edit r e).start_byte =
+      (if r.start_byte ≥ e.old_end_byte then e.new_end_byte + (r.start_byte - e.old_end_byte)
+       else if r.start_byte > e.start_byte then e.start_byte else r.start_byte) := by
+  have h1 : e.old_end_byte ≤ 4294967295 := by omega
+  have w2 : r.start_byte ≥ e.old_end_byte →
+      (e.new_end_byte + (r.start_byte + 4294967296 - e.old_end_byte) % 4294967296) % 4294967296
+        = e.new_end_byte + (r.start_byte - e.old_end_byte) := by intro h; omega
+  have n1 : ∀ x, ¬ (e.new_end_byte + x < e.new_end_byte) := by intro x; omega
+  unfold ts_range_edit
+  by_cases h3 : r.start_byte ≥ e.old_end_byte <;> by_cases h4 : r.start_byte > e.start_byte <;>
+    simp [h1, hopen, h3, h4, w2, n1] <;> (try omega)
+
 /-- `rangesJudge` never rejects what `ts_range_edit` computes (so a rejection is a deviation of the
 implementation from the proved mapping, not of the judge from the model). -/
 theorem rangesJudge_model (rs : List TSRange) (e : TSInputEdit) :
@@ -169,8 +188,15 @@ theorem rangesJudge_model (rs : List TSRange) (e : TSInputEdit) :
   | cons r rs ih =>
     intro i
     simp only [List.map_cons, rangesJudge.go]
-    rw [if_neg]
+    rw [if_neg, if_neg]
     · exact ih (i + 1)
+    · rintro ⟨h1, h2, h3, h4, h5⟩
+      have := range_edit_open_end r e h1 h2 h3 h4
+      simp only [movedByte] at h5
+      rcases h5 with h5 | h5 | h5
+      · exact h5 this.1
+      · exact h5 this.2.1
+      · exact h5 this.2.2
     · rintro ⟨h1, h2, h3, h4, h5⟩
       have := range_edit_eq_phi r e h1 h2 h3 h4
       simp only [movedByte] at h5
